@@ -11,6 +11,7 @@ import (
 	"crypto/sha512"
 	"crypto/x509"
 	"crypto/x509/pkix"
+	"errors"
 	"fmt"
 	"hash"
 	"net/http"
@@ -280,6 +281,12 @@ type Device struct {
 	// blob.DeviceCredential); Cred is its decoded form.
 	CredBlob []byte
 	Cred     *fdo.DeviceCredential
+	// HmacFailSum > 0: the device's HMAC engine behaves like a hardware one
+	// (it has an Err method) and its HmacFailSum-th finalisation from now on
+	// fails: Sum returns its argument unchanged and Err reports the failure.
+	HmacFailSum int
+	HmacSums    int
+	HmacFaults  int
 }
 
 func (w *World) NewDevice(name, role string, cfg KeyCfg) *Device {
@@ -289,7 +296,32 @@ func (w *World) NewDevice(name, role string, cfg KeyCfg) *Device {
 }
 
 func (d *Device) HMACs() (hash.Hash, hash.Hash) {
-	return hmac.New(sha256.New, d.Secret), hmac.New(sha512.New384, d.Secret)
+	h256, h384 := hmac.New(sha256.New, d.Secret), hmac.New(sha512.New384, d.Secret)
+	if d.HmacFailSum > 0 {
+		return &FlakyHash{Hash: h256, d: d}, &FlakyHash{Hash: h384, d: d}
+	}
+	return h256, h384
+}
+
+// FlakyHash is a keyed hash with the failure semantics of a hardware HMAC
+// engine (cf. tpm/hmac.go): a failed finalisation returns no digest and is
+// reported through Err until the next Reset.
+type FlakyHash struct {
+	hash.Hash
+	d   *Device
+	err error
+}
+
+func (f *FlakyHash) Reset()     { f.err = nil; f.Hash.Reset() }
+func (f *FlakyHash) Err() error { return f.err }
+func (f *FlakyHash) Sum(b []byte) []byte {
+	f.d.HmacSums++
+	if f.d.HmacSums == f.d.HmacFailSum {
+		f.d.HmacFaults++
+		f.err = errors.New("simulated secure element: HMAC sequence complete failed")
+		return b
+	}
+	return f.Hash.Sum(b)
 }
 
 // Persist writes the credential through its blob encoding and reads it back,
